@@ -20,6 +20,10 @@ MUTANTS = {
         ('merr-count', 'dashlive/server/requesthandler/manifest_requests.py', "self.increment_error_counter('manifest', code) > options.failureCount", "self.increment_error_counter('manifest', code) > options.failureCount + 1"),
         ('lget-enc', 'dashlive/server/requesthandler/media_requests.py', "        if representation.encrypted and not options.encrypted:\n            logging.warning('Request for an encrypted stream, when drmSelection is empty')\n            return flask.make_response(\n                'Request for an encrypted stream, when drmSelection is empty', 404)\n        options.update(segmentTimeline=(segment_time is not None))\n        mf = current_media_file", "        options.update(segmentTimeline=(segment_time is not None))\n        mf = current_media_file"),
         ('lget-badnum-500', 'dashlive/server/requesthandler/media_requests.py', "            logging.warning('Invalid segment number: %s', err)\n            return flask.make_response('Invalid segment number', 404)", "            logging.warning('Invalid segment number: %s', err)\n            raise"),
+        ('sm-patch-static', 'dashlive/server/requesthandler/manifest_requests.py', "        if mode != 'live':\n            # Patch elements are ignored if MPD@type == 'static'\n            options.update(patch=False)\n", ""),
+        ('sm-timeline-forced', 'dashlive/server/requesthandler/manifest_requests.py', "        elif mft.segment_timeline or options.patch:\n            options.update(segmentTimeline=True)", "        elif mft.segment_timeline and options.patch:\n            options.update(segmentTimeline=True)"),
+        ('sm-maxage-ceil', 'dashlive/server/requesthandler/manifest_requests.py', "            max_age = int(math.floor(context[\"minimumUpdatePeriod\"]))\n        except KeyError:\n            max_age = 60\n        headers = {\n            'Content-Type': 'application/dash+xml',", "            max_age = int(math.ceil(context[\"minimumUpdatePeriod\"]))\n        except KeyError:\n            max_age = 60\n        headers = {\n            'Content-Type': 'application/dash+xml',"),
+        ('sm-bad-options-500', 'dashlive/server/requesthandler/manifest_requests.py', "            logging.info('Invalid CGI parameters: %s', e)\n            return flask.make_response('Invalid CGI parameters', 400)\n        if mode != 'live':", "            logging.info('Invalid CGI parameters: %s', e)\n            raise\n        if mode != 'live':"),
         ('err-counter-none', 'dashlive/server/requesthandler/base.py', "value = (flask.session.get(key) or 0) + 1", "value = flask.session.get(key, 0) + 1"),
         ('err-count-ge', 'dashlive/server/requesthandler/media_requests.py', "self.increment_error_counter(content_type, code) > options.failureCount", "self.increment_error_counter(content_type, code) >= options.failureCount"),
         ('err-pos-eq', 'dashlive/server/requesthandler/media_requests.py', "            if pos != seg_num:\n                continue\n            if (", "            if pos == seg_num:\n                continue\n            if ("),
